@@ -323,6 +323,7 @@ func (e *epochRun) runTask(t *Task, ti int) {
 		if e.plan {
 			pre = op.Pre
 		}
+		e.sim.AdvanceClock(e.prog.ClockJump(e.epIdx, ti, oi))
 		e.sim.BeginOp(oi, op.Kind, pre)
 		if e.plan {
 			e.sim.SetLockPlan(op.PreLock)
@@ -338,6 +339,11 @@ func (e *epochRun) runTask(t *Task, ti int) {
 	}
 }
 
+// The library never sees the real clock: logical time starts at a fixed
+// instant in every process, advances with the statements executed and the
+// planned jumps, and continues from pass to pass (sched.go, Clock). Outside of
+// a pass VerifClock keeps answering from the last simulator.
+
 // runEpochPass executes one epoch once. plan=false is the sequential
 // reference pass (every task runs until it finishes or blocks).
 func runEpochPass(p *Program, ei int, opt *Options, plan bool) *epochRun {
@@ -347,6 +353,8 @@ func runEpochPass(p *Program, ei int, opt *Options, plan bool) *epochRun {
 	e.sim.TraceOn = opt.Trace && plan
 	decimal128.VerifHook = e.sim.Hook
 	decimal128.VerifLockHook = e.sim.LockHook
+	e.sim.ClockBase = ClockNow()
+	decimal128.VerifClock = e.sim.Clock
 	*modePtr = decimal128.RoundingMode(ep.Mode)
 	e.pool = buildPool(&p.Pool)
 	e.poolText = e.pool.render()
@@ -590,6 +598,8 @@ func reversePass(p *Program, ei int, opt *Options, conc *epochRun) []Violation {
 	defer sm.Close()
 	decimal128.VerifHook = sm.Hook
 	decimal128.VerifLockHook = sm.LockHook
+	sm.ClockBase = ClockNow()
+	decimal128.VerifClock = sm.Clock
 	defer func() { decimal128.VerifHook = nil; decimal128.VerifLockHook = nil }()
 	*modePtr = decimal128.RoundingMode(ep.Mode)
 	var pool *poolObjs
